@@ -31,6 +31,8 @@ type CaseResult struct {
 	Log        []string               `json:"log,omitempty"`
 	Infra      string                 `json:"infra,omitempty"` // infrastructure trouble (exit 2)
 	TraceHash  string                 `json:"trace"`
+	// HangCandidate: a call exceeded the watchdog bound in a loaded worker; to be confirmed alone.
+	HangCandidate bool `json:"hang_candidate,omitempty"`
 }
 
 // Ctx is handed to a property's Run function for one case.
